@@ -957,8 +957,8 @@ class KeywordCase(SxOracle):
 
     def call(self, sx, node, st):
         _, item, name, args, bi, occ = node
-        if item in ('eq', 'ne') and len(args) == 2 and 'RowName' in name and self.objrow is not None and any(f == 'objective_name' for a in args for o, f in sx_fields(a)):
-            return _cbool(self.objrow == (item == 'eq'))          # `row_name == self.mps.objective_name`
+        if item in ('eq', 'ne') and len(args) == 2 and self.objrow is not None and sum(1 for a in args if any(f == 'objective_name' and o.endswith('parser::Mps') for o, f in sx_fields(a))) == 1:
+            return _cbool(self.objrow == (item == 'eq'))          # `row_name == self.mps.objective_name`, compared as RowName, String or &str
         if item in ('eq', 'ne') and len(args) == 2 and re.search(r'\bstr\b|String', name):
             lits = [T._unq(sx_strip(a)[1]) for a in args if sx_strip(a)[0] == 'const' and '"' in sx_strip(a)[1]]
             if len(lits) == 1: return _cbool((lits[0] in self.true) == (item == 'eq'))
@@ -1207,7 +1207,87 @@ def dispatch_rules(ctx, R, b):
     ctx.check(got.get('Name') is None and name_err, R + '/dispatch/data-before-section', 'T-TABLE', b.name, 'a data line before any section is not an error', b.site())
 
 
+# =====================================================================================================
+# comment and blank lines (clause: any well-formed text, comments and blank lines anywhere)
+# =====================================================================================================
+LINE_SOURCE = re.compile(r'Item = (std::string::)?String\b|Item = &(\'\w+ )?str\b|Item = std::result::Result<(std::string::)?String|\bLines<')
+TRIMS = ('trim', 'trim_start', 'trim_end', 'trim_ascii', 'trim_ascii_start', 'trim_ascii_end', 'split_whitespace', 'split_ascii_whitespace')
+
+
+def line_pulls(b):
+    """calls in `b` that take the next element(s) out of an iterator over the lines of the file (an `impl Iterator<Item = String>`,
+    `Lines<..>`, ..): next / nth / peek / find / ... -- every consuming method, not the lazy adaptors"""
+    out = []
+    for c in b.calls:
+        if not c.args or c.args[0]['k'] == 'const' or c.item in SX_ADAPTORS or c.item in ('into_iter', 'iter', 'by_ref', 'size_hint', 'clone', 'deref', 'deref_mut', 'borrow_mut', 'as_mut'): continue
+        if not ('Iterator' in (c.trait or '') or 'Peekable' in c.name): continue
+        recv = b.locals[c.args[0]['pl']['l']] if c.args[0]['pl']['l'] < len(b.locals) else ''
+        if LINE_SOURCE.search(c.name.split(' as ')[0]) or LINE_SOURCE.search(recv): out.append(c)
+    return out
+
+
+class LineCase(SxOracle):
+    """the line taken by the call in block `bb` exists and is blank (white space only) / a comment (`*` in column 1)"""
+    def __init__(self, bb, kind): self.bb = bb; self.kind = kind
+
+    def _pull(self, x): return x[0] == 'call' and x[4] == self.bb and x[5] == 1
+
+    def _line(self, v): return any(self._pull(x) for x in sx_walk(v))
+
+    def variant(self, sx, v, st):
+        if self._pull(v): return 'Some'
+        if v[0] == 'field' and v[3] == 'payload' and self._pull(v[1]): return 'Ok'       # `Lines` yields io::Result<String>
+        return None
+
+    def call(self, sx, node, st):
+        _, item, name, args, bi, occ = node
+        if not args or not self._line(args[0]) or self._pull(node): return None
+        trimmed = any(x[0] == 'call' and x[1] in TRIMS for x in sx_walk(args[0]))
+        if item == 'is_empty' and re.search(r'\bstr\b|String', name):
+            if self.kind == 'comment': return _cbool(False)
+            return _cbool(True) if trimmed else None          # "   " is not empty before trimming
+        if item == 'starts_with' and len(args) == 2 and sx_strip(args[1])[0] == 'const':
+            pat = sx_strip(args[1])[1].strip().strip('"\'')
+            if self.kind == 'comment':
+                if pat == '*': return _cbool(True)
+                if pat in ('', ' ', '\\t'): return _cbool(False)
+            elif pat == '*': return _cbool(False)
+        if item in ('eq', 'ne') and len(args) == 2 and sx_strip(args[1])[0] == 'const' and re.fullmatch(r'(const )?""', sx_strip(args[1])[1].strip()):
+            if self.kind == 'comment': return _cbool(item == 'ne')
+            if trimmed: return _cbool(item == 'eq')
+        return None
+
+
+def line_filter_rules(ctx):
+    """every line the reader takes from the file passes the comment / blank filter: wherever a line is pulled from the line
+    iterator (the main loop of from_lines or anywhere else in the reader), a blank line and a `*` comment line lead back to pulling
+    the next line with nothing done in between -- no section reader called, nothing parsed, no state changed, no return"""
+    R = 'C17.lines'
+    bodies = [b for n, b in sorted(ctx.F.bodies.items()) if b.kind in ('fn', 'closure') and re.match(r'^(<.* as )?mps::(parser::|[^:]*$)', b.parent if b.kind == 'closure' else n)]
+    sites = [(b, c) for b in bodies for c in line_pulls(b)]
+    ctx.check(any(b.hdr.get('item') == 'from_lines' for b, c in sites), R + '/source', 'T-LOOPMUST', 'mps::parser', 'no place found where Mps::from_lines takes the lines of the file one by one', '')
+    for kind in ('blank', 'comment'):
+        probs = []; n = 0
+        for b, c in sites:
+            ctx.fn(b)
+            stops = {x.bb for bb_, x in sites if bb_ is b}
+            try:
+                ps = Sx(ctx, b, LineCase(c.bb, kind)).run(c.bb, None, stops)
+            except (SxLimit, RecursionError):
+                probs.append('%s: too many paths to decide' % b.name); continue
+            for p in ps:
+                n += 1
+                done = [e for e in p.events if e[0] == 'store' or (e[0] == 'call' and not (e[4] == c.bb and e[5] is not None and p.events.index(e) == 0) and
+                        (strip_generic_args(e[2]) in ctx.F.bodies or e[1] in ('parse', 'insert', 'remove', 'take', 'push', 'entry', 'get_mut', 'from_residual')))]
+                touched = [l for l in p.env if l < len(b.locals) and re.search(r'parser::(State|Mps)\b', b.locals[l]) and not b.locals[l].lstrip().startswith('&')]
+                what = 'a %s line' % ('blank' if kind == 'blank' else 'comment')
+                if p.end != 'stop': probs.append('%s (line %s): after %s the reader does not go on to the next line (%s)' % (b.name.split('::')[-1], b.site(c.bb).split(':')[-1], what, p.end))
+                elif done or touched: probs.append('%s (line %s): %s is not skipped: %s' % (b.name.split('::')[-1], b.site(c.bb).split(':')[-1], what, ', '.join(sorted({e[1] for e in done})) or 'the parser state is changed'))
+        ctx.check(n > 0 and not probs, R + '/%s-skipped' % kind, 'T-LOOPMUST', 'mps::parser', 'every line taken from the file must pass the blank / comment filter: %s' % '; '.join(sorted(set(probs))[:3]), sites[0][0].site(sites[0][1].bb) if sites else '')
+
+
 def parser_rules(ctx):
+    line_filter_rules(ctx)
     R = 'C17.keywords'
     b = ctx.method(R + '/sense/anchor', 'mps::parser::ObjSense', 'from_str', trait='FromStr')
     if b is not None:
@@ -1857,5 +1937,5 @@ def check(ctx):
     # count does not depend on how the code is laid out)
     for fam, n in {'C17.bounds': 19, 'C17.columns': 2, 'C17.convert': 6, 'C17.convert.cover': 15, 'C17.convert.defaults': 5, 'C17.convert.kind': 2,
                    'C17.convert.rows': 5, 'C17.convert.sense': 1, 'C17.convert.sign': 6, 'C17.convert.terms': 1, 'C17.convert.vars': 5, 'C17.defaults': 1,
-                   'C17.keywords': 33, 'C17.names': 2, 'C17.ranges': 7, 'C17.rhs': 3, 'C17.rows': 4}.items():
+                   'C17.keywords': 33, 'C17.lines': 3, 'C17.names': 2, 'C17.ranges': 7, 'C17.rhs': 3, 'C17.rows': 4}.items():
         ctx.floor(fam, n)
